@@ -2,14 +2,16 @@
 from . import sched as SC
 
 PROPERTY = "C02"
-PREFIX = "C02/"
 META = {
-    "bounds": {"quick": "one loop iteration of each scheduler from an ARBITRARY state fi in [fmin,fmax), N>=8 symbolic and unbounded, all configuration parameters symbolic; start loop: generic k-th iteration from the proved invariant start=k*shift (N unbounded) and literal unrolling for N<=12 with unwinding assertion",
+    "bounds": {"quick": "one loop iteration of each scheduler from an ARBITRARY state fi in [fmin,fmax), N>=8 symbolic and unbounded, all configuration parameters symbolic; start computation: generic k-th iteration from the proved invariant start=k*shift (ltf/lpsd, N unbounded), literal unrolling for N<=12 with unwinding assertion, generic-element array [0,m,m+1,K-1] for the vectorised schedulers (N unbounded); SpectrumAnalyzer.plan() validation on symbolic plans of nf<=2 bins, K<=3",
                "thorough": "literal unrolling for N<=24"},
-    "outside": ["IEEE ties/rounding in the scheduler arithmetic (exact reals here)", SC.POW_FACTS + " (abstraction of the power; counterexamples are replayed on real plans)"],
-    "stubs": ["(N/2)**(1/Jdes) -> uninterpreted application with the facts above", "round_half_up -> proved summary floor(v+1/2)"],
+    "outside": ["IEEE ties/rounding in the scheduler arithmetic (exact reals here)", SC.POW_FACTS + " (abstraction of the power; counterexamples are replayed on real plans)",
+                "the lookup grid of vectorized_ltf_plan is abstracted to a generic adjacent pair g0<f<=g1=rho*g0"],
+    "stubs": ["(N/2)**(1/Jdes) -> uninterpreted application with the facts above", "round_half_up -> proved summary floor(v+1/2)", "np.logspace/np.searchsorted -> generic adjacent grid pair (searchsorted contract, side='left')", "np.arange(K) for symbolic K -> generic-element array"],
     "assumptions": ["admissible configuration: N>=8, fs>0, 0<=olap<1, 1<=bmin<N/2, 1<=Lmin<=N, Jdes>=1, Kdes>=1"],
 }
+GROUPS = [["C02/defined*"], ["C02/L-range", "C02/K>=1", "C02/K=navg*", "C02/K=1*", "C02/first*", "C02/plan-K*", "C02/unwinding*", "C02/structure*", "C02/appended*", "C02/start-loop*", "C02/noraise*"],
+          ["C02/starts-in-range"], ["C02/starts-increasing"], ["C02/last-start*"]]
 
 
 def encoded_functions():
@@ -26,12 +28,33 @@ def ob_vec(W, part):
     return SC.ob_vec(W, part)
 
 
+def ob_new(W, part):
+    return SC.ob_new(W, part)
+
+
+def ob_plan(W, **kw):
+    return SC.ob_plan(W, **kw)
+
+
+def split(obs, name, fn, params, groups, **kw):
+    for gi, pats in enumerate(groups):
+        obs.append(dict(kw, name="%s/g%d" % (name, gi), fn=fn, params=params, only=pats))
+
+
 def obligations(tier):
     obs = []
+    to = 30 if tier == "quick" else 200
     for sched in ("ltf", "lpsd"):
-        for part in ("step", "seg-generic"):
-            obs.append({"name": "%s/%s" % (sched, part), "fn": "ob_ltf", "params": {"sched": sched, "part": part}, "timeout": 30 if tier == "quick" else 200})
+        split(obs, "%s/step" % sched, "ob_ltf", {"sched": sched, "part": "step"}, GROUPS[:2], timeout=to)
+        split(obs, "%s/seg-generic" % sched, "ob_ltf", {"sched": sched, "part": "seg-generic"}, GROUPS, timeout=to)
         b = 12 if tier == "quick" else 24
-        obs.append({"name": "%s/seg-N%d" % (sched, b), "fn": "ob_ltf", "params": {"sched": sched, "part": "seg", "bound": b}, "timeout": 60 if tier == "quick" else 600, "weight": 10})
-    obs.append({"name": "vec/step", "fn": "ob_vec", "params": {"part": "step"}, "timeout": 30 if tier == "quick" else 200})
+        split(obs, "%s/seg-N%d" % (sched, b), "ob_ltf", {"sched": sched, "part": "seg", "bound": b}, GROUPS, timeout=60 if tier == "quick" else 900, weight=10)
+    split(obs, "vec/step", "ob_vec", {"part": "step"}, GROUPS, timeout=to, weight=5)
+    if tier == "thorough":
+        split(obs, "new/step", "ob_new", {"part": "step"}, GROUPS, timeout=to, weight=5)
+    else:
+        split(obs, "new/step", "ob_new", {"part": "step"}, GROUPS[:1], timeout=20, weight=5)
+    for Ks in ([[1], [2], [3, 1], [2, 2]] if tier == "quick" else [[1], [2], [3], [1, 1], [3, 1], [2, 2], [1, 3], [3, 3]]):
+        obs.append({"name": "plan/K%s" % "-".join(map(str, Ks)), "fn": "ob_plan", "params": {"Ks": Ks}, "fork": True, "max_paths": 200, "timeout": to})
+    obs.append({"name": "plan/lpsd/K2-1", "fn": "ob_plan", "params": {"Ks": [2, 1], "sched_is_lpsd": True}, "fork": True, "max_paths": 200, "timeout": to})
     return obs
